@@ -65,6 +65,10 @@ func c20Stop(x *mc.Cell, sc Scenario) {
 						x.Die()
 					}
 				}
+				// messages still in flight are lost from here on (a stopped node's stream handler stays registered;
+				// a message handled after Stop parks its handler goroutine in the stopped state-machine group for
+				// good - observation (c) of DESIGN 9.3, not a goroutine blocked on a lock of this library)
+				w.Drop()
 				time.Sleep(24 * time.Hour)
 				mc.Wait()
 				x.Premise++
